@@ -213,6 +213,12 @@ C19_Q = [
     H("w19_two_starts_c128", "same from depth 128", ["indent buffer grown twice"], cost=2),
     H("w19_comment_grow", "same, Comment", [], cost=2),
 ]
+C19_T = [
+    H("w19_two_starts_c110", "two Start events in a row from depth 110 with a 128-byte indent buffer (width 0..9 symbolic), then a Comment", [], cost=2),
+    H("w19_two_starts_c119", "two Start events in a row from depth 119 with a 128-byte indent buffer (width 0..9 symbolic), then a Comment", [], cost=2),
+    H("w19_two_starts_c120", "two Start events in a row from depth 120 with a 128-byte indent buffer (width 0..9 symbolic), then a Comment", ["indent buffer grown twice"], cost=2),
+    H("w19_two_starts_c127", "two Start events in a row from depth 127 with a 128-byte indent buffer (width 0..9 symbolic), then a Comment", ["indent buffer grown twice"], cost=2),
+]
 C08_W = [
     H("w8_start_n3", "plain Writer::write_event(start) with a symbolic payload <=3 ASCII bytes into a Vec: exactly open+payload+close", [], cost=2),
     H("w8_end_n3", "plain Writer::write_event(end) with a symbolic payload <=3 ASCII bytes into a Vec: exactly open+payload+close", [], cost=2),
@@ -293,7 +299,7 @@ PLAN = {
   "C03": {"quick": EMIT_Q + STEP1_Q, "thorough": STEP1_T, "owns_panics": True, "evidence": {}},
   "C04": {"quick": C04_Q, "thorough": C04_T, "labels": ["C04", "C16"], "evidence": {}},
   "C08": {"quick": C08_Q + C08_W, "thorough": C08_WT, "evidence": {}},
-  "C19": {"quick": C19_Q, "thorough": [], "evidence": {}},
+  "C19": {"quick": C19_Q, "thorough": C19_T, "evidence": {}},
   "C16": {"quick": C16_Q + [H("e_start_n8", "ReaderState::emit_start on every scanner output <=8 bytes (expansion: the remembered name)", [], cost=2)], "thorough": C16_T, "labels": ["C16", "C01"], "evidence": {}},
   "C02": {"quick": C02_Q, "thorough": C02_T, "labels": ["C02", "C01"], "evidence": {}},
   "C18": {"quick": C18_Q, "thorough": C18_T, "labels": ["C18", "C02", "C01"], "evidence": {}},
